@@ -211,78 +211,99 @@ def run(F, R, tier):
     # ------------------------------------------------------------------ R3 the closures
     r3 = R.rule("C14-R3", "T4", "pack: did == own id → placeholder else unchanged, for all four roles; unpack: did == placeholder → target DID else unchanged, with IotaDID::check_validity on the non-placeholder branch for id and controller only; result re-validated by CoreDocument::try_from")
     pfn = "<" + SMD + " as core::convert::From<identity_iota_core::document::iota_document::IotaDocument>>::from"
-    h = F.hir(pfn)
-    if r3.anchor(h, pfn):
-        env = H.Env(h)
-        cls = [n for n in H.walk(H.root(h)) if n.get("k") == "closure"]
+    if r3.anchor(F.hir(pfn), pfn):
+        # by abstract evaluation: the four role closures handed to map_unchecked, each applied to an arbitrary DID x:
+        #   x == the document's own id → PLACEHOLDER_DID, otherwise x unchanged
+        ev_ = sym.Evaluator(F, opaque=r"CoreDocument::map_unchecked$")
+        PH = sym.term(ev_.const_value("identity_iota_core::state_metadata::document::PLACEHOLDER_DID"))
+        r3.require(PH[:1] != ("def",), (pfn, "placeholder"), "the PLACEHOLDER_DID static could not be evaluated")
         ok = False
-        for c in cls:
-            iff = H.find_first({"value": c["body"]}, lambda n: n.get("k") == "if")
-            if iff is None:
-                continue
-            cc = H.strip(iff["cond"])
-            if cc.get("k") == "binary" and cc["op"] == "Eq":
-                oo = H.origins(cc["l"], env) | H.origins(cc["r"], env, accessors=re.compile(r"IotaDocument::id$"), extra=re.compile(r"as_ref$|::clone$"))
-                then_o = H.origins(iff["then"], env, extra=re.compile(r"::clone$|Deref::deref$"))
-                else_o = H.origins(iff["else"], env) if iff.get("else") else set()
-                self_cmp = any(o[0] == "closure_param" for o in oo) and any(o[:2] == ("param", "document") for o in oo)
-                to_placeholder = bool(then_o) and all(o[0] == "def" and o[1].endswith("PLACEHOLDER_DID") for o in then_o)
-                keeps = bool(else_o) and all(o[0] == "closure_param" for o in else_o)
-                ok = self_cmp and to_placeholder and keeps
-                r3.site("pack closure: did == own id → PLACEHOLDER_DID else did: %s" % ok, iff["sp"])
-        r3.require(ok, (pfn, "closure"), "the pack closure is not `if did == own id { PLACEHOLDER } else { did }`")
-        mu = H.calls(h, CD + "::map_unchecked")
-        if r3.require(len(mu) == 1, (pfn, "map_unchecked"), "pack does not rewrite through CoreDocument::map_unchecked"):
-            arr = [n for n in H.walk(H.root(h)) if n.get("k") == "repeat"]
-            args = [H.local_name(a) for a in H.call_args(mu[0])[1:]]
-            r3.site("map_unchecked(%s)" % args, mu[0]["sp"])
-            r3.require(len(args) == 4 and all(a is not None for a in args), (pfn, "four-roles"), "map_unchecked is not given a closure for each of id, controller, methods, services")
-            # all four come from the same closure
-            srcs = set()
-            for a in H.call_args(mu[0])[1:]:
-                srcs |= {o for o in H.origins(a, env)}
-            r3.require(len({o for o in srcs if o[0] == "closure"}) == 1, (pfn, "same-closure"), "the four roles are not rewritten by the same self→placeholder closure: %s" % sorted(map(str, srcs)))
+        try:
+            ps = [q for q in ev_.explore(pfn) if q.complete]
+        except (sym.Abort, sym.TooManyPaths) as e:
+            ps = []
+            r3.fail((pfn, "not-evaluable"), "the pack conversion could not be evaluated: %s" % e)
+        mus = [e for q in ps for e in q.calls(r"CoreDocument::map_unchecked$")]
+        if r3.require(len(mus) >= 1, (pfn, "map_unchecked"), "pack does not rewrite through CoreDocument::map_unchecked"):
+            mu = mus[0]
+            roles = mu.args[1:5]
+            r3.site("map_unchecked(%d role closures)" % len(roles))
+            r3.require(len(roles) == 4 and all(isinstance(c_, sym.Clo) for c_ in roles), (pfn, "four-roles"), "map_unchecked is not given a closure for each of id, controller, methods, services")
+            ok = len(roles) == 4
+            for role, c_ in zip(("id", "controller", "methods", "services"), roles):
+                if not isinstance(c_, sym.Clo):
+                    ok = False
+                    continue
+                X = sym.Sym(("param", "x"))
+                try:
+                    tbl = [q for q in ev_.explore_closure(c_, [X]) if q.complete]
+                except (sym.Abort, sym.TooManyPaths):
+                    tbl = []
+                good = len(tbl) == 2
+                for q in tbl:
+                    eqs = [(a, c) for (a, c, _, _) in q.decisions if a[0] == "eq" and ("param", "x") in (a[1], a[2])]
+                    if len(eqs) != 1 or len(q.decisions) != 1:
+                        good = False
+                        continue
+                    a, c = eqs[0]
+                    other = a[2] if a[1] == ("param", "x") else a[1]
+                    own = SR.derives(other, SR.param("document")) and "id" in sym.fmt(other)
+                    if c:
+                        good = good and own and SR.pure(q.ret, PH)
+                    else:
+                        good = good and own and sym.term(q.ret) == ("param", "x")
+                r3.site("pack closure (%s): did == own id → PLACEHOLDER_DID else did: %s" % (role, good))
+                ok = ok and good
+        r3.require(ok, (pfn, "closure"), "the pack closure is not `if did == own id { PLACEHOLDER } else { did }` for each of the four roles")
     ufn = SMD + "::into_iota_document"
-    h = F.hir(ufn)
-    if r3.anchor(h, ufn):
-        env = H.Env(h)
-        cl_by_name = {}
-        for n in H.walk(H.root(h)):
-            if n.get("k") == "let" and n.get("init") is not None and H.strip(n["init"]).get("k") == "closure":
-                for b in H.pat_bindings(n["pat"]):
-                    cl_by_name[b[0]] = H.strip(n["init"])
-        shapes = {}
-        for nm, c in cl_by_name.items():
-            iff = H.find_first({"value": c["body"]}, lambda n: n.get("k") == "if")
-            if iff is None:
-                continue
-            cc = H.strip(iff["cond"])
-            is_ph = cc.get("k") == "binary" and cc["op"] == "Eq" and any(o[0] == "def" and o[1].endswith("PLACEHOLDER_DID") for o in H.origins(cc["l"], env, extra=re.compile(r"as_ref$|Deref::deref$")) | H.origins(cc["r"], env, extra=re.compile(r"as_ref$|Deref::deref$")))
-            then_o = H.origins(iff["then"], env, extra=re.compile(r"::clone$|From::from$|Into::into$"))
-            to_target = bool(then_o) and all(o[:2] == ("param", "original_did") for o in then_o)
-            else_fns = H.called_fns(iff["else"]) if iff.get("else") else set()
-            validates = ID + "::check_validity" in else_fns
-            else_o = H.origins(iff["else"], env) if iff.get("else") else set()
-            keeps = any(o[0] == "closure_param" for o in else_o)
-            shapes[nm] = (is_ph, to_target, validates, keeps)
-            r3.site("unpack closure %s: placeholder→target=%s, else validates IOTA DID=%s, keeps did=%s" % (nm, is_ph and to_target, validates, keeps), iff["sp"])
-        tm = H.calls(h, CD + "::try_map")
-        if r3.require(len(tm) == 1, (ufn, "try_map"), "unpack does not rewrite through CoreDocument::try_map (which re-validates the document)"):
-            roles = ["id", "controller", "methods", "services"]
-            for role, a in zip(roles, H.call_args(tm[0])[1:5]):
-                oo = H.origins(a, env)
-                src = None
-                for nm, c in cl_by_name.items():
-                    if any(o == ("closure", c["def"]) for o in oo):
-                        src = nm
-                sh = shapes.get(src)
-                r3.site("try_map role %s ← closure %s %s" % (role, src, sh))
-                if not r3.require(sh is not None and sh[0] and sh[1] and sh[3], (ufn, "role-closure", role), "the %s role is not rewritten by a `placeholder → target else unchanged` closure" % role):
+    if r3.anchor(F.hir(ufn), ufn):
+        ev_ = sym.Evaluator(F, opaque=r"CoreDocument::try_map$|IotaDID::check_validity$")
+        PH = sym.term(ev_.const_value("identity_iota_core::state_metadata::document::PLACEHOLDER_DID"))
+        try:
+            ps = [q for q in ev_.explore(ufn) if q.complete]
+        except (sym.Abort, sym.TooManyPaths) as e:
+            ps = []
+            r3.fail((ufn, "not-evaluable"), "the unpack conversion could not be evaluated: %s" % e)
+        tms = [e for q in ps for e in q.calls(r"CoreDocument::try_map$")]
+        if r3.require(len(tms) >= 1, (ufn, "try_map"), "unpack does not rewrite through CoreDocument::try_map (which re-validates the document)"):
+            tm = tms[0]
+            for role, c_ in zip(("id", "controller", "methods", "services"), tm.args[1:5]):
+                if not r3.require(isinstance(c_, sym.Clo), (ufn, "role-closure", role), "the %s role is not rewritten by a closure" % role):
+                    continue
+                X = sym.Sym(("param", "x"))
+                try:
+                    tbl = [q for q in ev_.explore_closure(c_, [X]) if q.complete]
+                except (sym.Abort, sym.TooManyPaths):
+                    tbl = []
+                to_target = keeps = validates = False
+                shape_ok = bool(tbl)
+                for q in tbl:
+                    eqs = [(a, c) for (a, c, _, _) in q.decisions if a[0] == "eq" and ("param", "x") in (a[1], a[2])]
+                    if len(eqs) != 1:
+                        shape_ok = False
+                        continue
+                    a, c = eqs[0]
+                    other = a[2] if a[1] == ("param", "x") else a[1]
+                    if not SR.pure(other, PH):
+                        shape_ok = False
+                    val = q.calls(r"IotaDID::check_validity$")
+                    out = q.ret.fields[0] if isinstance(q.ret, sym.V) and q.ret.name == "Ok" and q.ret.fields else q.ret
+                    if c:
+                        to_target = to_target or (SR.derives(out, SR.param("original_did")) and not val)
+                    else:
+                        if val:
+                            validates = True
+                            if q.succeeded(val[0]) is True:
+                                keeps = keeps or sym.term(out) == ("param", "x")
+                        else:
+                            keeps = keeps or sym.term(out) == ("param", "x")
+                r3.site("unpack closure %s: placeholder→target=%s, else validates IOTA DID=%s, keeps did=%s" % (role, to_target, validates, keeps))
+                if not r3.require(shape_ok and to_target and keeps, (ufn, "role-closure", role), "the %s role is not rewritten by a `placeholder → target else unchanged` closure" % role):
                     continue
                 if role in ("id", "controller"):
-                    r3.require(sh[2], (ufn, "role-validates", role), "the %s of an unpacked document is not required to be an IOTA DID" % role)
+                    r3.require(validates, (ufn, "role-validates", role), "the %s of an unpacked document is not required to be an IOTA DID" % role)
                 else:
-                    r3.require(not sh[2], (ufn, "role-foreign", role), "%s DIDs of foreign methods are required to be IOTA DIDs: documents with foreign DIDs fail to unpack" % role)
+                    r3.require(not validates, (ufn, "role-foreign", role), "%s DIDs of foreign methods are required to be IOTA DIDs: documents with foreign DIDs fail to unpack" % role)
     fn = CD + "::try_map"
     h = F.hir(fn)
     if r3.anchor(h, fn):
